@@ -26,6 +26,6 @@ For each change N (1..3) create the directory {wt}/out/N/ containing:
   - patch.diff : `git diff` of the source change only (no test files), applicable with `git apply` at the worktree root;
   - a demonstration: a NEW Go test file (give its intended path inside the repo in meta.json; name it zz_seed_demo_test.go in the right package directory) or a small program, that FAILS with the change applied and PASSES without it. Save a copy as {wt}/out/N/demo_test.go;
   - meta.json : {{"property": "{pid}", "summary": "...what was changed...", "needs": "...what it needs in order to manifest...", "demo_path": "<repo-relative path where demo_test.go must be placed>", "demo_cmd": "<go test command run from the worktree root, e.g. go test -count=1 -run TestSeedDemo ./executor/>", "packages_tested": ["./executor/", ...]}}
-Verify each yourself: with the patch applied the touched packages build and their existing tests pass and the demo FAILS; with the patch reverted (git checkout -- . ; keep the demo file) the demo PASSES. Leave the worktree clean of source modifications at the end (git stash/checkout), keeping only out/.
+Verify each yourself: with the patch applied the touched packages build and their existing tests pass and the demo FAILS; with the patch reverted (git checkout -- . ; keep the demo file) the demo PASSES. Leave the worktree clean of source modifications at the end (`git checkout -- .`), keeping only out/. NEVER use `git stash` (the stash is shared with other worktrees of this repository and other people are working in those): to set a change aside use `git diff > file; git checkout -- .` and later `git apply file`.
 
 If after honest effort you can only produce one or two, that's fine — quality over quantity. Finish with a short report: for each change one line (files touched, mechanism, how the demo triggers it). Do not describe how one might detect these changes.""")
